@@ -23,6 +23,8 @@ func installSeam() {
 	})
 }
 
+var ballast []byte
+
 func main() {
 	installSeam()
 	core.Main(&core.Check{
@@ -43,9 +45,12 @@ func main() {
 			"part B runs on the default pool (ClonePool); UnsafePool is covered at pool level only",
 		},
 		Init: func(tier string) {
-			// millions of tiny replays: keep the collector from cycling on a
-			// 4 MB heap with 16 threads per worker
-			// (fresh pages are very expensive on this box: a small, reused heap wins)
+			// millions of tiny replays / fresh runtimes.  Page faults are very
+			// expensive on this box: an untouched (hence non resident) ballast
+			// keeps the heap goal high, so that the collector runs rarely and
+			// the scavenger does not hand freed pages back to the kernel only
+			// to fault them in again; one thread per worker.
+			ballast = make([]byte, 256<<20)
 			debug.SetGCPercent(100)
 			runtime.GOMAXPROCS(1)
 		},
